@@ -18,6 +18,8 @@ mod c10;
 mod c42;
 mod c43;
 mod c11;
+mod c13;
+mod c08;
 mod c05;
 mod c26;
 mod c27;
@@ -89,6 +91,8 @@ fn main() {
         "C42" => c42::main(tier, replay.clone()),
         "C43" => c43::main(tier, replay.clone()),
         "C11" => c11::main(tier, replay.clone()),
+        "C13" => c13::main(tier, replay.clone()),
+        "C08" => c08::main(tier, replay.clone()),
         "C05" => c05::main(tier, replay.clone()),
         "C26" => c26::main(tier, replay.clone()),
         "C27" => c27::main(tier, replay.clone()),
